@@ -104,6 +104,15 @@ main (int argc, char **argv)
       n_eval++;
       if (crypt_checksalt (0) != CRYPT_SALT_INVALID) { n_viol++; printf ("VIOL NULL %d %d\n", crypt_checksalt (0), CRYPT_SALT_INVALID); }
       b[0] = 0; check (b, 0);
+      /* the preferred method is the strongest enabled default-capable one, and checksalt says OK for it */
+      const char *pm = crypt_preferred_method ();
+      const char *want = M[0].enabled ? "$y$" : M[3].enabled ? "$2b$" : M[7].enabled ? "$6$" : 0;
+      n_eval++;
+      if ((pm == 0) != (want == 0) || (pm && strcmp (pm, want)) || (pm && crypt_checksalt (pm) != CRYPT_SALT_OK))
+        {
+          n_viol++;
+          printf ("VIOL 505245464552524544 %d %d\n", pm ? crypt_checksalt (pm) : -1, want ? 0 : -1);
+        }
     }
   /* every byte string of length 1..3 (bytes 1..255), sharded by first byte */
   for (int a = 1; a < 256; a++)
